@@ -43,6 +43,9 @@ type FinInterp struct {
 	BindAssign func(s *ast.AssignStmt, env FinEnv) (handled bool, err error)
 	// StopAt ends the evaluation with outcome "stop" when it returns true.
 	StopAt func(s ast.Stmt) bool
+	// Store observes assignments whose target is not a plain identifier
+	// (field / map / index stores).
+	Store func(lhs ast.Expr, v interface{})
 }
 
 type finCtl int
@@ -148,7 +151,10 @@ func (it *FinInterp) stmt(s ast.Stmt, env FinEnv) (*FinOutcome, finCtl, error) {
 		for i, l := range x.Lhs {
 			id, ok := unparen(l).(*ast.Ident)
 			if !ok {
-				continue // stores to fields/maps are opaque effects
+				if it.Store != nil {
+					it.Store(l, vals[i])
+				}
+				continue // stores to fields/maps are otherwise opaque effects
 			}
 			if id.Name == "_" {
 				continue
